@@ -6,6 +6,7 @@ and stores it as /verif/seeded/<id>-<k>/ {patch.diff, demo.py, notes.md, meta.js
 import sys, os, subprocess, json, shutil, re
 stage, pid, k = sys.argv[1], sys.argv[2], sys.argv[3]
 checks = sys.argv[4:] or [pid]
+ROOT = os.environ.get('VERIF_ROOT') or os.path.dirname(os.path.dirname(os.path.abspath(__file__)))
 src = os.path.join(stage, pid, k)
 wt = '/tmp/wt/confirm-%s-%s' % (pid, k)
 env = dict(os.environ, PYTHONDONTWRITEBYTECODE='1')
@@ -47,7 +48,7 @@ rc, out = sh('git -C /repo apply %s' % patch)
 assert rc == 0, out
 try:
     for c in checks:
-        rcc, outc = sh('/verif/check %s --tier quick' % c, timeout=3000)
+        rcc, outc = sh('%s/check %s --tier quick' % (ROOT, c), timeout=3000)
         lines = [l for l in outc.splitlines() if l.startswith('VIOLATION') or l.startswith('KNOWN')]
         res[c] = dict(exit=rcc, lines=lines[:3], summary=outc.strip().splitlines()[-1] if outc.strip() else '')
         for l in lines:
@@ -64,7 +65,7 @@ notes = open(os.path.join(src, 'notes.md')).read() if os.path.exists(os.path.joi
 meta['needs'] = notes.strip()[:1500]
 meta['ran'] = ['git worktree add (scratch) ; demo on clean tree ; git apply patch.diff ; pytest -q ; demo with change ; worktree removed',
                'git -C /repo apply patch.diff ; ./check <id> --tier quick for ids %s ; git -C /repo checkout -- .' % checks]
-dst = '/verif/seeded/%s-%s' % (pid, k)
+dst = '%s/seeded/%s-%s' % (ROOT, pid, k)
 os.makedirs(dst, exist_ok=True)
 for f in ('patch.diff', 'demo.py', 'notes.md'):
     if os.path.exists(os.path.join(src, f)):
